@@ -16,6 +16,8 @@ Driver commands of the analyzer models (C14–C16):
   served by a `CreateTableStatementGetter` subclass from a dict keyed by `schema.table` / `table`; the first statement of the
   text goes to `TableLineageAnalyzer.get_select_table_lineage` (a SELECT) or `get_insert_table_lineage` (INSERT … SELECT);
   answer `OK <all_columns()> ASKED L[names the getter was asked for]`.
+* `AN lineage-seq <dialect> <hex catalogue> <hex text> <hex text> …` — the statements analysed one after the other on ONE
+  `TableLineageAnalyzer` (one getter); answer: the `OK <all_columns()>` / error kinds joined by ` ;; `.
 -/
 namespace Drv
 
@@ -67,25 +69,43 @@ def parseCatalogue (text : String) : Except Err LN.Cat :=
 
 def showAsked (st : LN.St) : String := " ASKED " ++ showVal (.list (st.asked.map .str))
 
+/-- one top-level call on a statement: `get_select_table_lineage` / `get_insert_table_lineage` start from a NEW
+`TableLineageStorage` (`table_lineage_analyzer.py:39-41`); only the getter (its log and cache) outlives the call -/
+def lineageCall (cat : LN.Cat) (d : Gen.D) (text : List Char) (asked : List String) : String × Option LN.St :=
+  match firstStmt d text with
+  | .error e => (e.show, none)
+  | .ok (.select q) =>
+    (match LN.selectLineage cat (LN.fuelFor q) q { asked := asked } with
+     | .ok (lin, st) =>
+       ("OK " ++ showVal (.list (lin.allColumns.map fun (c, s) => .tuple [c.toVal, .list (s.map LN.SrcCol.toVal)])), some st)
+     | .error e => (e.show, none))
+  | .ok (.insertSelect h q) =>
+    (match LN.insertLineage cat h q { asked := asked } with
+     | .ok (data, st) =>
+       ("OK " ++ showVal (.list (data.map fun (dn, ups) => .tuple [dn.toVal, .list (ups.map LN.SrcCol.toVal)])), some st)
+     | .error e => (e.show, none))
+  | .ok _ => ("BADREQ statement", none)
+
 def anLineage (d : Gen.D) (cat : String) (text : List Char) : String :=
   match parseCatalogue cat with
   | .error _ => "BADREQ catalogue"
   | .ok cat =>
-    match firstStmt d text with
-    | .error e => e.show
-    | .ok (.select q) =>
-      (match LN.selectLineage cat (LN.fuelFor q) q {} with
-       | .ok (lin, st) =>
-         "OK " ++ showVal (.list (lin.allColumns.map fun (c, s) => .tuple [c.toVal, .list (s.map LN.SrcCol.toVal)])) ++ showAsked st
-       | .error e => e.show)
-    | .ok (.insertSelect h q) =>
-      (match LN.insertLineage cat h q {} with
-       | .ok (data, st) =>
-         "OK " ++ showVal (.list (data.map fun (dn, ups) => .tuple [dn.toVal, .list (ups.map LN.SrcCol.toVal)])) ++ showAsked st
-       | .error e => e.show)
-    | .ok _ => "BADREQ statement"
+    match lineageCall cat d text [] with
+    | (a, some st) => a ++ showAsked st
+    | (a, none) => a
+
+/-- a history: several statements analysed one after the other on ONE `TableLineageAnalyzer`.  Nothing but the getter is
+shared between the calls, so every answer is the one the statement gets alone (the getter's log is not printed here). -/
+def anLineageSeq (d : Gen.D) (cat : String) (texts : List (List Char)) : String :=
+  match parseCatalogue cat with
+  | .error _ => "BADREQ catalogue"
+  | .ok cat => " ;; ".intercalate (texts.map fun t => (lineageCall cat d t []).1)
 
 def cmdAnalyze : List String → Option String
+  | "AN" :: "lineage-seq" :: dn :: hc :: hs =>
+    some (match Gen.D.ofName? dn with
+      | none => "BADREQ dialect"
+      | some d => anLineageSeq d (unhexS hc) (hs.map unhex))
   | ["AN", "lineage", dn, hc, h] =>
     some (match Gen.D.ofName? dn with
       | none => "BADREQ dialect"
